@@ -36,8 +36,10 @@ ASSUMPTIONS = [
     "pending before use)",
     "spimmap (spi_mmap.SPIMaster): mode, divider, length and chip select are set at least two cycles before the start pulse and a new "
     "transfer is configured no earlier than a cycle after done (changing CPOL toggles the idle clock line by design)",
+    "spimmap / spiengine: dividers >= 2 (the slot register documents 0 and 1 as reserved; with them the internal clock runs one more half "
+    "period after done and the engine reads a receive word shifted by one bit)",
 ]
-COMPONENTS = {"real": ["litex.soc.cores.uart.RS232PHYTX/RS232PHYRX/RS232ClkPhaseAccum", "litex.soc.cores.spi.spi_master.SPIMaster", "litex.soc.cores.spi.spi_mmap.SPIMaster",
+COMPONENTS = {"real": ["litex.soc.cores.uart.RS232PHYTX/RS232PHYRX/RS232ClkPhaseAccum", "litex.soc.cores.spi.spi_master.SPIMaster", "litex.soc.cores.spi.spi_mmap.SPIMaster/SPIEngine",
                        "litex.soc.cores.i2c.I2CMaster/I2CMasterMachine/I2CClockGen (through its Wishbone registers)",
                        "litex.soc.cores.timer.Timer", "litex.soc.cores.watchdog.Watchdog", "litex.soc.cores.pwm.PWM",
                        "litex.soc.interconnect.csr_bus.CSRBank", "litex.gen.sim.core.Simulator (MultiReg lowered normally)"],
@@ -50,8 +52,8 @@ SEEDED_SCALE = {"quick": 4, "thorough": 5}      # multiplies the run counts of t
 
 def plan(tier):
     if tier == "quick":
-        return [("uart_tx", 40), ("uart_rx", 50), ("spi", 80), ("timer", 60), ("watchdog", 40), ("pwm", 20), ("timeline", 60), ("i2c", 120), ("spislave", 40), ("uart_full", 30), ("spimmap", 40)]
-    return [("uart_tx", 1500), ("uart_rx", 2500), ("spi", 4000), ("timer", 3000), ("watchdog", 2000), ("pwm", 500), ("timeline", 2000), ("i2c", 6000), ("spislave", 2000), ("uart_full", 1500), ("spimmap", 2000)]
+        return [("uart_tx", 40), ("uart_rx", 50), ("spi", 80), ("timer", 60), ("watchdog", 40), ("pwm", 20), ("timeline", 60), ("i2c", 120), ("spislave", 40), ("uart_full", 30), ("spimmap", 40), ("spiengine", 40)]
+    return [("uart_tx", 1500), ("uart_rx", 2500), ("spi", 4000), ("timer", 3000), ("watchdog", 2000), ("pwm", 500), ("timeline", 2000), ("i2c", 6000), ("spislave", 2000), ("uart_full", 1500), ("spimmap", 2000), ("spiengine", 2000)]
 
 
 def generate(family, rng, tier):
@@ -139,6 +141,9 @@ def generate(family, rng, tier):
     if family == "spimmap":
         from props import c19_spimmap
         return c19_spimmap.generate(rng, tier)
+    if family == "spiengine":
+        from props import c19_spiengine
+        return c19_spiengine.generate(rng, tier)
     if family == "uart_full":
         from props import c19_uartfull
         return c19_uartfull.generate(rng, tier)
@@ -159,6 +164,9 @@ def run(scn):
     if scn["family"] == "spimmap":
         from props import c19_spimmap
         return c19_spimmap.run(scn, mkV, _result)
+    if scn["family"] == "spiengine":
+        from props import c19_spiengine
+        return c19_spiengine.run(scn, mkV, _result)
     if scn["family"] == "uart_full":
         from props import c19_uartfull
         return c19_uartfull.run(scn, mkV, _result, decode_tx_wave, RemoteTx)
